@@ -31,8 +31,8 @@ type shape struct {
 
 var scalarsAll = []string{"bool", "int", "int8", "int16", "int32", "int64", "uint", "uint8", "uint16", "uint32", "uint64", "float32", "float64", "string", "byte"}
 var scalarsQuick = []string{"bool", "int8", "int32", "int64", "uint16", "uint64", "float32", "float64", "string", "byte"}
-var named = []string{"Inner", "NInt", "NUint", "NFloat", "NBool", "NStr", "NSlice", "NMap", "NPtrStruct"}
-var namedQuick = []string{"Inner", "NInt", "NStr", "NSlice", "NMap"}
+var named = []string{"Inner", "NInt", "NUint", "NFloat", "NBool", "NStr", "NSlice", "NMap", "NPtrStruct", "Plain", "Mid", "NumBox"}
+var namedQuick = []string{"Inner", "NInt", "NStr", "NSlice", "NMap", "Mid", "NumBox"}
 var keysAll = []string{"string", "bool", "int", "int8", "int16", "int32", "int64", "uint", "uint8", "uint16", "uint32", "uint64", "float32", "float64", "byte", "NInt", "NStr", "*int32", "*string", "*float64"}
 var keysQuick = []string{"string", "int", "int32", "uint64", "float64", "bool", "byte", "NStr", "*int32"}
 
@@ -47,6 +47,23 @@ type Inner struct {
 type NPtrStruct struct {
 	P *int32
 	Q *string
+}
+
+// structs without any text below them: plain numbers, a pointer to such a struct, numeric containers
+type Plain struct {
+	A int32
+	B float64
+}
+
+type Mid struct {
+	N int32
+	P *Plain
+	V Plain
+}
+
+type NumBox struct {
+	L []float64
+	M map[int32]int32
 }
 
 type NInt int32
@@ -226,6 +243,9 @@ func phaseGenerate(root, tier string, seed uint64) {
 	helper := []shape{
 		{Name: "Inner", Kind: "helper", Expr: "struct", Family: "helper"},
 		{Name: "NPtrStruct", Kind: "helper", Expr: "struct", Family: "helper"},
+		{Name: "Plain", Kind: "helper", Expr: "struct", Family: "helper"},
+		{Name: "Mid", Kind: "helper", Expr: "struct", Family: "helper"},
+		{Name: "NumBox", Kind: "helper", Expr: "struct", Family: "helper"},
 		{Name: "NSlice", Kind: "helper", Expr: "[]int32", Family: "helper"},
 		{Name: "NMap", Kind: "helper", Expr: "map[string]int32", Family: "helper"},
 	}
